@@ -286,6 +286,12 @@ def run(ctx, report):
     R7 = report.rule('C08.D7', 'the lifted list of a rep-prefixed string instruction reads and writes the count register the address size selects, for every string instruction under F2 or F3 (predicate and count evaluated)', floor=6)
     rep_count_rule(ctx, R7)
 
+    # ---------------------------------------------------------------- D9 kept operand expressions
+    R9 = report.rule('C08.D9', 'operand expressions and lifted lists that are kept with an instruction or in a table are computed only from what selects the slot they are kept in '
+                     '(the instruction, the key): the segments asked for (segm_to_do) and the other arguments of the lifting call select the answer of every call (shared with C12.D17)', floor=1)
+    from .c12 import cache_key_rule
+    cache_key_rule(R9, [ctx.mod(n_) for n_ in ('emul_helper', 'ia32_sem', 'ia32_arch', 'ppc_sem', 'ppc_arch') if n_ in __import__('sa.srcmodel', fromlist=['MODULES']).MODULES])
+
 
 def rep_count_rule(ctx, R):
     """emul_full_expr repeats a string instruction under F2/F3; the count register decides whether anything happens and is decremented, so the lifted
@@ -462,6 +468,8 @@ def _width(t):
 
 
 MUTANTS = [
+    ('operands-kept-per-instruction', 'miasmx/tools/emul_helper.py', "    for x in l.arg:\n        args.append(dict_to_Expr(x, l.m.modifs, l.opmode, l.admode, segm_to_do))\n    l.arg_expr = args\n",
+     "    if getattr(l, 'arg_expr', None) is None:\n        l.arg_expr = [dict_to_Expr(x, l.m.modifs, l.opmode, l.admode, segm_to_do) for x in l.arg]\n    args.extend(l.arg_expr)\n", 'C08.D9'),
     ('lds-selector-offset', 'miasmx/arch/ia32_sem.py', "    e.append(ExprAff(ds, ExprMem(ExprOp('+', b.arg,\n                                        ExprInt_from(b.arg, a.get_size()//8)),", "    e.append(ExprAff(ds, ExprMem(ExprOp('+', b.arg,\n                                        ExprInt_from(b.arg, 2)),", 'C08.D4'),
     ('xmm7-fencepost', 'miasmx/arch/ia32_sem.py', "            if 0 <= n-x86_afs.reg_xmm_base < 8:\n                t = ia32_rexpr.reg_xmm", "            if 0 <= n-x86_afs.reg_xmm_base < 7:\n                t = ia32_rexpr.reg_xmm", 'C08.D3'),
     ('cmovb-zf', 'miasmx/arch/ia32_sem.py', "    e.append(ExprAff(a, ExprCond( cf , b, a)))", "    e.append(ExprAff(a, ExprCond( zf , b, a)))", 'C08.D1'),
